@@ -35,7 +35,6 @@ PROP = {
     "classical Renyi entropy at alpha=0": "C18", "random generators: BCSZ": "C18", "average_gate_fidelity uses": "C18",
     "entanglement_of_formation of a maximally": "C18",
     "Circuit.invert mirrors the trainable": "C06", "Align names its parameter": "C06",
-    "Circuit.add also rejects a default register name": "C03",
     "SymbolicTerm applies": "C15", "StateEvolution takes": "C16", "von_neumann_entropy of a state vector": "C18",
 }
 
